@@ -42,6 +42,10 @@ type C12Case struct {
 	// command is run and compared again against the same, long-running server
 	AddFiles    []TreeFile `json:"add_files,omitempty"`
 	RemoveFiles []string   `json:"remove_files,omitempty"`
+	// ModFile / ModWrites: an existing served file gets further points (same size, usually the same second of
+	// modification time) between the two runs (round 10, C18s)
+	ModFile   string      `json:"mod_file,omitempty"`
+	ModWrites []SlotWrite `json:"mod_writes,omitempty"`
 }
 
 var c12Counter int64
@@ -317,8 +321,15 @@ again:
 			}
 		}
 	}
-	if phase == 1 && (len(c.AddFiles) > 0 || len(c.RemoveFiles) > 0) {
+	if phase == 1 && (len(c.AddFiles) > 0 || len(c.RemoveFiles) > 0 || c.ModFile != "") {
 		phase = 2
+		if c.ModFile != "" {
+			if err := modifyFile(filepath.Join(root, sub, c.ModFile), c.ModWrites, now); err != nil {
+				add("setup", "phase 2 (modify): %v", err)
+				return
+			}
+			desc = "(served file " + c.ModFile + " written to between the runs) " + desc
+		}
 		for _, rf := range c.RemoveFiles {
 			os.Remove(filepath.Join(root, sub, rf))
 		}
@@ -371,6 +382,19 @@ func genC12(t *rapid.T) C12Case {
 				c.Files[i].Dir = c.Files[i].Dir + dirSuffix + "x"
 			}
 			c.Files[i].Name = strings.Replace(c.Files[i].Name, "f", "f"+fileInfix, 1)
+		}
+	}
+	if rapid.IntRange(0, 7).Draw(t, "edgeSpace") == 0 {
+		// names that BEGIN or END with white space (a directory " s1", a file "f1.wsp "): legal file names that a
+		// parameter 'cleaned' on one side only would address differently (round 10, C12s)
+		kind := rapid.IntRange(0, 2).Draw(t, "edgeSpaceKind")
+		for i := range c.Files {
+			if kind != 1 {
+				c.Files[i].Dir = " " + c.Files[i].Dir
+			}
+			if kind != 0 {
+				c.Files[i].Name = c.Files[i].Name + " "
+			}
 		}
 	}
 	if rapid.IntRange(0, 4).Draw(t, "prefixNames") == 0 {
@@ -498,6 +522,14 @@ func genC12(t *rapid.T) C12Case {
 			c.RemoveFiles = append(c.RemoveFiles, f.Dir+"/"+f.Name)
 		}
 	}
+	if c.Cmd != "copy" && c.Cmd != "sum-copy" && len(c.RemoveFiles) == 0 && rapid.IntRange(0, 3).Draw(t, "modBetween") == 0 {
+		f := pick
+		if !exists || strings.ContainsAny(c.Rel, "*?[") || (c.Cmd != "view" && c.Cmd != "view-raw") {
+			f = c.Files[rapid.IntRange(0, len(c.Files)-1).Draw(t, "modWhich")]
+		}
+		c.ModFile = f.Dir + "/" + f.Name
+		c.ModWrites = genWrites(t, f.Spec.L, now, valDyadic, 5)
+	}
 	if !exists && (c.Cmd == "view" || c.Cmd == "view-raw" || c.Cmd == "diff") && strings.HasSuffix(c.Rel, ".wsp") && !strings.ContainsAny(c.Rel, "*?[") && rapid.Bool().Draw(t, "appearsLater") {
 		// the file asked for in vain is there at the second run (a server must not remember that it was not)
 		c.AddFiles = append(c.AddFiles, TreeFile{Dir: filepath.Dir(c.Rel), Name: filepath.Base(c.Rel), Spec: pick.Spec})
@@ -523,7 +555,7 @@ func TestC12(t *testing.T) {
 	RunProperty(t, Property[C12Case]{
 		NoteCases:   true,
 		ID:          "C12",
-		Rule:        "one in-process `whispertool server` over a per-process root; per case a fresh served subtree (1-3 directories x 1-6 files) and a command - view, view-raw, sum, diff and copy with the source side remote, sum-diff, file and item globs through them - run twice at the same controlled clock: with the directory and with the server URL as base, through real HTTP round trips. Existing and missing files / patterns, every window / archive selection (incl. out-of-range ids). Oracle (differential): same result class {nil, diff found, not-exist, other error}, byte-identical text output, and for copy byte-identical destination trees. Further modes: a writer holds the served file's lock while the remote read arrives; a file asked for in vain exists at the second run; the served root's name contains a colon (relative spelling); the quick tier runs as two processes, the second with DEBUG=1. Non-trivial: the compared output has >=1 data line, or the case is a not-exist case. Distinct = hash of the case.",
+		Rule:        "one in-process `whispertool server` over a per-process root; per case a fresh served subtree (1-3 directories x 1-6 files) and a command - view, view-raw, sum, diff and copy with the source side remote, sum-diff, file and item globs through them - run twice at the same controlled clock: with the directory and with the server URL as base, through real HTTP round trips. Existing and missing files / patterns, every window / archive selection (incl. out-of-range ids). Oracle (differential): same result class {nil, diff found, not-exist, other error}, byte-identical text output, and for copy byte-identical destination trees. Further modes: a writer holds the served file's lock while the remote read arrives; a file asked for in vain exists at the second run; a served file is written to between the two runs (same size, same second); the served root's name contains a colon (relative spelling); the quick tier runs as two processes, the second with DEBUG=1. Non-trivial: the compared output has >=1 data line, or the case is a not-exist case. Distinct = hash of the case.",
 		Assumptions: []string{"error messages of the 'other error' class are not compared", "file and directory names from [a-z0-9/.] plus, in a quarter of the cases, one of + & space %41 = # ; (no glob metacharacters, no dots in directory names)"},
 		Gen:         genC12,
 		Run:         runC12,
